@@ -35,7 +35,7 @@ fn show_phase(p: &LinkPhase) -> String {
 fn show_conn(c: &SrtlaConnection) -> String {
     let log: Vec<String> = c.verif_packet_log().iter().map(|(s, t)| format!("{s}:{t}")).collect();
     format!(
-        "{} c={} w={} inf={} log=[{}] hi={} lr={} proof={} rttm={} nak={} lnak={} lincr={} fr={} frs={} burst={} bstart={} ph={} score={}",
+        "{} c={} w={} inf={} log=[{}] hi={} lr={} proof={} rttm={} nak={} lnak={} lincr={} fr={} frs={} burst={} bstart={} ph={} score={} q={} ls={}",
         c.conn_id,
         show_bool(c.connected),
         c.window,
@@ -53,7 +53,9 @@ fn show_conn(c: &SrtlaConnection) -> String {
         c.congestion.nak_burst_count,
         c.congestion.nak_burst_start_time_ms,
         show_phase(&c.phase),
-        c.get_score()
+        c.get_score(),
+        c.batch_sender.queued_count(),
+        show_opt(c.last_sent)
     )
 }
 
@@ -162,7 +164,8 @@ impl Component for Conn {
         }
         let len = rng.range(10, 60);
         let seq_near = |rng: &mut Rng, next_seq: u32, hi_ack: u32| -> u32 {
-            match rng.below(8) {
+            match rng.below(12) {
+                8..=11 => next_seq.wrapping_sub(1 + rng.below(6) as u32) & 0x7fff_ffff,
                 0 => next_seq.wrapping_sub(1 + rng.below(20) as u32) & 0x7fff_ffff,
                 1 => hi_ack,
                 2 => hi_ack.wrapping_sub(rng.below(5) as u32) & 0x7fff_ffff,
@@ -187,6 +190,22 @@ impl Component for Conn {
                         }
                         next_seq = (next_seq + 1) & 0x7fff_ffff;
                     }
+                }
+                5 if false => {}
+                6 if rng.chance(1, 2) => {
+                    // a flushed batch mixing fresh data with a late retransmission of an old number
+                    let k = rng.range(2, 6);
+                    let old_pos = rng.below(k);
+                    for j in 0..k {
+                        if j == old_pos {
+                            let s = seq_near(rng, next_seq, hi_ack) & 0x7fff_ffff;
+                            ops.push(format!("q {i} {s} {now}"));
+                        } else {
+                            ops.push(format!("q {i} {next_seq} {now}"));
+                            next_seq = (next_seq + 1) & 0x7fff_ffff;
+                        }
+                    }
+                    ops.push(format!("tb {i} {}", now + 15));
                 }
                 6 => {
                     // re-send of an old number (possibly at/below the ACK mark), maybe on another link
@@ -276,6 +295,57 @@ impl Component for Conn {
         ops
     }
 
+    /// `hist4`: ALL histories of exactly 4 operations over 2 links and 4 sequence numbers from the
+    /// alphabet {send i s, cumulative ACK a, SRTLA ACK of s arriving on i, NAK s, reset i}
+    /// (32 symbols -> 32^4 = 1 048 576 histories).
+    fn exhaustive(&mut self, which: &str) -> Option<Vec<Vec<String>>> {
+        if which != "hist4" {
+            return None;
+        }
+        let mut alphabet: Vec<String> = Vec::new();
+        let base = 1000u32;
+        for i in 0..2 {
+            for s in 0..4 {
+                alphabet.push(format!("route {i} {} 1000000", base + s));
+            }
+        }
+        for a in 0..4 {
+            alphabet.push(format!("evt 0 1 1000100 {} - -", base + a));
+        }
+        for i in 0..2 {
+            for s in 0..4 {
+                alphabet.push(format!("evt {i} 1 1000200 - {} -", base + s));
+            }
+        }
+        for s in 0..4 {
+            alphabet.push(format!("evt 0 1 1000300 - - {}", base + s));
+        }
+        for i in 0..2 {
+            alphabet.push(format!("reset {i} recovery 1000400"));
+            alphabet.push(format!("setc {i} c=1 lr=1000400"));
+        }
+        let k = alphabet.len();
+        let mut cases = Vec::with_capacity(k * k * k * k);
+        for a in 0..k {
+            for b in 0..k {
+                for c in 0..k {
+                    for d in 0..k {
+                        cases.push(vec![
+                            "new 2".to_string(),
+                            "setc 0 c=1 lr=1000000".to_string(),
+                            "setc 1 c=1 lr=1000000".to_string(),
+                            alphabet[a].clone(),
+                            alphabet[b].clone(),
+                            alphabet[c].clone(),
+                            alphabet[d].clone(),
+                        ]);
+                    }
+                }
+            }
+        }
+        Some(cases)
+    }
+
     fn start_case(&mut self) {
         self.links.clear();
         self.spec.clear();
@@ -357,6 +427,38 @@ impl Component for Conn {
                     c.register_packet(seq as i32, t);
                     self.spec[i].insert(seq as i32);
                     // an injected in-flight count is overwritten by the real log size here
+                }
+                self.mon_spec_if_clean(mon, &op);
+                self.show()
+            }
+            ["q", i, seq, t] => {
+                let (Ok(i), Ok(seq), Ok(t)) = (i.parse::<usize>(), seq.parse::<u32>(), t.parse::<u64>()) else {
+                    return "bad-op".into();
+                };
+                if i >= self.links.len() {
+                    return "bad-op".into();
+                }
+                let data = seq.to_be_bytes();
+                self.links[i].queue_data_packet(&data, Some(seq), t);
+                self.mon_spec_if_clean(mon, &op);
+                self.show()
+            }
+            ["tb", i, now] => {
+                let (Ok(i), Ok(now)) = (i.parse::<usize>(), now.parse::<u64>()) else { return "bad-op".into() };
+                if i >= self.links.len() {
+                    return "bad-op".into();
+                }
+                let batch = self.links[i].take_batch(now);
+                for (_, seq, _) in batch.iter() {
+                    if let Some(s) = seq {
+                        if (*s as i32) <= self.links[i].highest_acked_seq || batch.len() > 1 {
+                            mon.count("batch-send");
+                        }
+                        self.spec[i].insert(*s as i32);
+                    }
+                }
+                if batch.len() > 1 {
+                    mon.nontrivial();
                 }
                 self.mon_spec_if_clean(mon, &op);
                 self.show()
